@@ -17,7 +17,8 @@ Typs == {"absent", "int", "float", "str", "bool", "Opt_int", "Opt_float", "Opt_s
 IsOpt(t) == t \in {"Opt_int", "Opt_float", "Opt_str", "Opt_bool", "Opt_dict", "Opt_Lit", "Opt_Lit2"}
 Base(t) == CASE t = "Opt_int" -> "int" [] t = "Opt_float" -> "float" [] t = "Opt_str" -> "str"
              [] t = "Opt_bool" -> "bool" [] t = "Opt_dict" -> "dict" [] t = "Opt_Lit" -> "Lit" [] t = "Opt_Lit2" -> "Lit2" [] OTHER -> t
-\* "Lit" is a Literal whose members are alphabetic words, "Lit2" one whose members contain digits / underscores
+\* "Lit" is a Literal whose members are alphabetic words, "Lit2" one whose members contain digits / underscores,
+\* "LitP" one whose members contain characters that are special in a regular expression (hyphen, blank, full stop)
 
 \* "str_odd": a string with spaces / punctuation ("two words", "~/a b/c.txt"); "float_exp": a float whose repr uses an exponent (1e-07);
 \* "int_big": an int beyond 32 bits
@@ -40,7 +41,7 @@ Compat(t, d) ==
   \/ d \in IntDefs /\ Base(t) \in {"int", "absent", "Union_int_str"}
   \/ d \in FloatDefs /\ Base(t) \in {"float", "absent"}
   \/ d \in BoolDefs /\ Base(t) \in {"bool", "absent"}
-  \/ d = "str" /\ Base(t) \in {"str", "absent", "Lit", "Lit2"}
+  \/ d = "str" /\ Base(t) \in {"str", "absent", "Lit", "Lit2", "LitP"}
   \/ d \in {"str_empty", "str_odd", "str_dot"} /\ Base(t) \in {"str", "absent"}
   \/ d = "code" /\ Base(t) \in {"int", "absent", "List_str", "Dotted", "dict"}
 
